@@ -63,7 +63,7 @@ def run(ctx):
         f1 = ex.submit(ctx.go_harness, "cmd/keymasterd", "TestVerif_C20",
                        ["kmd/common.go", "kmd/creds.go", "kmd/consts.go", "kmd/c20.go", os.path.join(ctx.work, "gen", "mux_gen.go")],
                        extra_overlay={os.path.join(core.REPO, "keymasterd", "eventnotifier", "zz_verif_export.go"): export})
-        f2 = ex.submit(ctx.go_harness, "eventmon/eventrecorder", "TestVerif_C20R", [base, "eventrecorder/c20r.go"])
+        f2 = ex.submit(ctx.go_harness, "eventmon/eventrecorder", "TestVerif_C20R", [base, "eventrecorder/c20r.go", "eventrecorder/c20f.go"])
         ok, result, log = f1.result()
         rec_ok, rec_result, rec_log = f2.result()
         s_ok, s_result, s_log = f3.result()
@@ -84,11 +84,20 @@ def run(ctx):
     if rec_result is not None:
         jobs.append(("CasesC20L.v", "c20l_mismatches", "CasesC20L.idx",
                      "recorder event loop: every history answer and every saved file = model (%s scenarios)", "c20l_ncases"))
+    if rec_result is not None and os.path.exists(os.path.join(ctx.work, "CasesC20F.v")):
+        jobs.append(("CasesC20F.v", "c20f_mismatches", "CasesC20F.idx",
+                     "recorder save with a crash point or a failing file operation, then a restart through New(): what it comes back with = what the model's save with the same crash / fault index leaves under the history name (%s saves)", "c20f_ncases"))
     with ThreadPoolExecutor(max_workers=4) as ex:
         outs = list(ex.map(lambda j: ctx.eval_cases(os.path.join(ctx.work, j[0]), "c20_vs_model:" + j[0]), jobs))
     for j, res in zip(jobs, outs):
         if res is not None:
             corr(ctx, res, j[1], j[3] % res.get(j[4], "?"), j[2])
+            if j[1] == "c20f_mismatches":
+                violating(ctx, res, "c20f_violating", "history-lost", j[2],
+                          "property predicate evaluated in Coq on the observed restart: with a previous generation on disk the recorder comes back with it or with the new one")
+                corr(ctx, res, "c20u_mismatches", "recorder start-up next to leftover files and on a damaged file: what New() comes back with = the model's start-up, which looks at the history file's own name only (%s directories)" % res.get("c20u_ncases", "?"), "CasesC20U.idx")
+                violating(ctx, res, "c20u_violating", "startup-leftover", "CasesC20U.idx",
+                          "property predicate evaluated in Coq on the observed start-up: a start on a good history file comes back with that history whatever lies next to it")
             if j[1] == "c20s_mismatches":
                 violating(ctx, res, "c20s_violating", "stream", j[2],
                           "property predicate evaluated in Coq on the observed streams: every operation returned, every healthy subscriber was handed exactly the published sequence, a stalled one a subsequence of it")
